@@ -62,8 +62,16 @@ Theorem C03_roundtrip_on_span : forall t mu s Phi x c,
   inverse opsR m mu s Phi (map (fun phi => inner opsR t (prep opsR mu s x) phi) Phi) = x.
 Proof. exact roundtrip_on_span. Qed.
 Print Assumptions C03_roundtrip_on_span.
-(* C03_roundtrip_is_projection_partial: "in general inverse(transform) is the W-orthogonal projection
-   on the retained components" is not proved (idempotence is monitored on the implementation). *)
+(* in general the round trip is the projection on the retained components: scoring the reconstruction of
+   ANY curve again gives the same scores (transform o inverse o transform = transform) *)
+Theorem C03_roundtrip_is_projection : forall t Phi xt,
+  let m := length t in let K := length Phi in
+  Forall (fun r => length r = m) Phi ->
+  (forall k, (k < K)%nat -> map (fun g => inner opsR t (nth k Phi []) g) Phi = unit K k) ->
+  let xi := map (fun phi => inner opsR t xt phi) Phi in
+  map (fun phi => inner opsR t (mtv opsR m Phi xi) phi) Phi = xi.
+Proof. exact roundtrip_is_projection. Qed.
+Print Assumptions C03_roundtrip_is_projection.
 
 (* finding F2: rescaling the UNCENTRED curve (what transform(data) does with normalize=True) gives
    other scores than scoring the stored training data *)
